@@ -1,6 +1,7 @@
 """C08 — CFDP TLV and LV items: streams, implementation adapter, oracle.
 Family 10 of run_case (coq/theories/Run/DispTlv.v)."""
 import itertools
+from pathlib import Path
 from harness.core import classify_exception, canon_code, run_impl
 from spacepackets.cfdp.lv import CfdpLv
 from spacepackets.cfdp.defs import ConditionCode, FaultHandlerCode
@@ -152,6 +153,11 @@ def impl(op, a):
         v = CfdpLv.unpack(bytes(a[0])); return [list(v.value), [v.packet_len], list(v.pack())]
     if op == 1002:
         return [[int(CfdpLv(bytes(a[0])) == CfdpLv(bytes(a[1])))]]
+    if op == 1007:
+        v = CfdpLv.from_str(bytes(a[0]).decode()); w = CfdpLv.from_path(Path(bytes(a[0]).decode())) if a[0] and 0 not in a[0] else v
+        if v.pack() != w.pack() and str(Path(bytes(a[0]).decode())) == bytes(a[0]).decode():
+            raise RuntimeError("from_path differs from from_str")
+        return [list(v.pack()), [v.packet_len], list(v.value)]
     if op == 1003:
         return _tlv_view(_gtlv(a))
     if op == 1004:
@@ -335,6 +341,8 @@ def streams(tier, rng):
             cases.append((1001, [lv_bytes(v) + rbytes(rng, rng.randrange(1, 9))]))
             cases.append((1001, [lv_bytes(v)[:-1]] if n else [[]]))
             cases.append((1002, [v, v])); cases.append((1002, [v, rbytes(rng, n)])); cases.append((1002, [v, v + [0]]))
+    for n in LENS + [256, 300]:
+        cases.append((1007, [rname(rng, n)])); cases.append((1007, [rname(rng, n, True)]))
     for d0 in range(256):
         for ln in (0, 1, 2, d0, d0 + 1, d0 + 2, 256, 257):
             cases.append((1001, [([d0] + rbytes(rng, ln))[:ln] if ln == 0 else [d0] + rbytes(rng, ln - 1)]))
@@ -529,7 +537,7 @@ def _name(op):
 
 def oracle_spec(case, ires):
     op, a = case
-    if op == 1000 and len(a[0]) <= 255:
+    if op in (1000, 1007) and len(a[0]) <= 255:
         return [(1050, [a[0]])]
     if op == 1003 and len(a[1]) <= 255 and 0 <= a[0][0] <= 255:
         return [(1051, [a[0], a[1]])]
@@ -571,7 +579,7 @@ def oracle(case, ires, sres):
     err = ires[0][0] == 1
     code = ires[0][1] if err else None
     # ---------------- LV
-    if op == 1000:
+    if op in (1000, 1007):
         v = a[0]
         if len(v) > 255:
             return None if err and code in (1, 2, 3) else ("C08/CfdpLv.__init__/too-long-accepted", "%d octets -> %s" % (len(v), ires[:2]))
